@@ -71,6 +71,18 @@ impl VxCtidMap {
         ensures r.nr_msgs as nat <= vx_n_msgs(),
     { unimplemented!() }
 }
+// <&[u8] as TryInto<[u8; 4]>>::try_into: Ok iff the slice has four bytes
+#[verifier::external_body]
+pub fn vx_to_array4(s: &[u8]) -> (r: [u8; 4])
+    requires s@.len() == 4,
+{ s.try_into().unwrap() }
+#[verifier::external_body]
+pub fn vx_to_array4_or_default(s: &[u8]) -> (r: [u8; 4]) { s.try_into().unwrap_or_default() }
+// <[u8]>::split_first
+#[verifier::external_body]
+pub fn vx_split_first<'a>(s: &'a [u8]) -> (r: Option<(&'a u8, &'a [u8])>)
+    ensures r is Some <==> s@.len() >= 1, r is Some ==> *r->Some_0.0 == s@[0] && r->Some_0.1@ == s@.subrange(1, s@.len() as int),
+{ s.split_first() }
 // Option<String>::as_deref
 #[verifier::external_body]
 pub fn vx_as_deref<'a>(o: &'a Option<String>) -> (r: Option<&'a str>)
@@ -86,13 +98,17 @@ impl EcuStats {
 
 impl EacStats {
 //@ extract src/utils/eac_stats.rs EacStats::add_msg
-//@   sub R12 `self.ecu_map.entry(msg.ecu).or_default()` => `self.ecu_map.vx_entry_or_default(msg.ecu)`
-//@   sub R12 `ecu_stat.apids.entry(*m_apid).or_default()` => `ecu_stat.apids.vx_entry_or_default(*m_apid)`
-//@   sub R12 `apid .ctids .entry(*msg.ctid().unwrap()) .or_default()` => `apid.ctids.vx_entry_or_default(*msg.ctid().unwrap())`
+//@   sub R12 `self.ecu_map.entry(__).or_default()` => `self.ecu_map.vx_entry_or_default($1)`
+//@   sub R12 `_id_.apids.entry(__).or_default()` => `$1.apids.vx_entry_or_default($2)`
+//@   sub R12 `_id_ .ctids .entry(__) .or_default()` => `$1.ctids.vx_entry_or_default($2)`
 //@   sub R3 `vx_u32_from_be_bytes(a.payload_raw.get(0..4).unwrap().try_into().unwrap(),)` => `vx_u32_from_be_slice(vx_slice_get_0_4(a.payload_raw).unwrap())` ?
 //@   sub R3 `vx_u32_from_le_bytes(a.payload_raw.get(0..4).unwrap().try_into().unwrap(),)` => `vx_u32_from_le_slice(vx_slice_get_0_4(a.payload_raw).unwrap())` ?
 //@   sub R3 `vx_u32_from_be_bytes(a.payload_raw.get(0..4).unwrap().try_into().unwrap())` => `vx_u32_from_be_slice(vx_slice_get_0_4(a.payload_raw).unwrap())` ?
 //@   sub R3 `vx_u32_from_le_bytes(a.payload_raw.get(0..4).unwrap().try_into().unwrap())` => `vx_u32_from_le_slice(vx_slice_get_0_4(a.payload_raw).unwrap())` ?
+//@   sub R3 `_id_.payload_raw.get(0..4).unwrap().try_into().unwrap()` => `vx_to_array4(vx_slice_get_0_4($1.payload_raw).unwrap())` ?
+//@   sub R3 `_id_.payload_raw.try_into().unwrap_or_default()` => `vx_to_array4_or_default($1.payload_raw)` ?
+//@   sub R3 `_id_.payload_raw.try_into().unwrap()` => `vx_to_array4($1.payload_raw)` ?
+//@   sub R11 `_id_.split_first()` => `vx_split_first($1)` ?
 //@   sub R11 `_id_.desc.as_deref()` => `vx_as_deref(&$1.desc)` *
 //@   sub R16 `(&[] as &[u8], false)` => `(vx_empty_slice(), false)`
 //@   spec
